@@ -39,6 +39,15 @@ class Passthrough(BaseEstimator):
     def predict(self, X):
         return np.asarray(X)[:, 0]
 
+    # decoys: the checks always ask for predict_method="predict"; a rule that consults another method
+    # (at fit or at predict time) sees scores in the opposite order / constant scores
+    def predict_proba(self, X):
+        s = np.asarray(X)[:, 0]
+        return np.c_[0.5 + 0 * s, 0.5 + 0 * s]
+
+    def decision_function(self, X):
+        return -np.asarray(X)[:, 0]
+
     def __sklearn_is_fitted__(self):
         return True
 
@@ -162,11 +171,12 @@ def c10_clauses(to, case, level, flip, seed):
     # query: every (level, group) twice, interleaved with off-level scores, in a scrambled arrangement
     extra = [level[0] - 1.0, level[-1] + 1.0] + [(level[i] + level[i + 1]) / 2 for i in range(len(level) - 1)]
     q = [(s, a) for a in groups for s in list(level) + extra] * 2
+    q += [(level[0], "unseen_group"), (level[-1], "unseen_group")]          # a group value that did not occur at fit time: still a valid distribution
     random.Random(seed).shuffle(q)
     Xq = np.array([s for s, a in q], dtype=float).reshape(-1, 1)
     gq = [a for s, a in q]
     pmf = to._pmf_predict(Xq, sensitive_features=gq)
-    if not (np.all(pmf >= 0) and np.all(pmf <= 1) and np.allclose(pmf.sum(axis=1), 1, atol=1e-12)):
+    if np.isnan(pmf).any() or not (np.all(pmf >= 0) and np.all(pmf <= 1) and np.allclose(pmf.sum(axis=1), 1, atol=1e-12)):
         bad.append(("pmf_invalid", f"pmf rows not a distribution: {pmf.tolist()[:4]}"))
     p = pmf[:, 1]
     seen = {}
